@@ -124,37 +124,6 @@ class C07(core.Prop):
             concrete_label=(lambda a: a.get('fragname')) if shape.get('free_orders') is not None else None)))
         return cl
 
-    def classify(self, shape, cinp, cobs, clauses):
-        w = cobs['written']
-        if w[0] == 'ok' and '))' in w[1]:
-            # the reader's double-branch-close defect (C04 known finding) hit by a string the writer produced.
-            # Signature: the written string contains '))' and the writer's own output re-spelled without it
-            # (closing parenthesis of the last nested branch dropped = chain continuation) reads back correctly.
-            return 'C07-writer-emits-double-close' if self._respelled_ok(shape, cinp, w[1]) else None
-        return None
-
-    def _respelled_ok(self, shape, cinp, text):
-        # drop the parentheses of a nested branch that ends a branch: "(X(Y))" -> "(XY)" is only valid when the
-        # inner branch is the last thing in the outer one; do it textually from the inside out
-        import re
-        t = text
-        for _ in range(10):
-            m = re.search(r'\(((?:\[[^\]]*\]|[^()])*)\)\)', t)
-            if not m:
-                break
-            inner = m.group(1)
-            t = t[:m.start()] + inner + ')' + t[m.end():]
-        if '))' in t:
-            return False
-        from cgsmiles.read_cgsmiles import read_cgsmiles
-        r = core.guard(read_cgsmiles, t)
-        if r[0] != 'ok':
-            return False
-        g2 = r[1]
-        obs = {'written': ('ok', t), 'read': ('ok', {'nodes': {k: dict(d) for k, d in g2.nodes(data=True)},
-                                                     'edges': [[a, b, d.get('order')] for a, b, d in g2.edges(data=True)]})}
-        return not core.eval_clauses(self.oracle(shape, cinp, obs))
-
     def sample(self, shape, cinp):
         return {'edges': shape['edges'], 'perm': shape['perm'], 'orders': cinp['orders'], 'names': cinp['names']}
 
